@@ -27,7 +27,7 @@ import (
 //
 //	frame: (h sid end ((#name #value) ...) pieces)   HEADERS split into `pieces`+1 frames (CONTINUATION)
 //	       (d sid end #payload) | (dz sid end length fill)     DATA (dz: `length` bytes of `fill`)
-//	       (o kind sid)                                         settings | ping | window | priority | rst | goaway | table0 | table64 | settings-misc | tableup8k | tableup64k
+//	       (o kind sid)                                         settings | ping | window | priority | rst | goaway | table0 | table64 | settings-misc | tableup8k | tableup64k | goaway0
 //
 // observation: ((items ((req #method (hdr ...) datalen #first64) (resp status (hdr ...) datalen #first64) variant) ...) (left q r))
 func init() {
@@ -95,6 +95,8 @@ func encH2Half(isClient bool, frames sx.Sx) []byte {
 				fr.WriteRSTStream(sid, http2.ErrCodeCancel)
 			case "goaway": // graceful: the streams up to the last id are still completed
 				fr.WriteGoAway(1<<31-1, http2.ErrCodeNo, []byte("bye"))
+			case "goaway0": // a graceful shutdown by this side: no NEW streams of the peer; the streams it opened itself go on
+				fr.WriteGoAway(0, http2.ErrCodeNo, nil)
 			case "table0": // the sender's DEcoder table (limits the peer's encoder, not this half's)
 				fr.WriteSettings(http2.Setting{ID: http2.SettingHeaderTableSize, Val: 0})
 			case "table64":
@@ -337,7 +339,7 @@ func genHttp2Conv(r *Rand, tier string, emit func(sx.Sx)) {
 					out = append(out, sx.L(sx.A("o"), sx.A("rst"), sx.N(2*s+1)))
 				}
 				if r.Chance(15) {
-					kinds := []string{"settings", "ping", "window", "priority", "rst", "goaway", "table0", "table64", "settings-misc", "tableup8k", "tableup64k"}
+					kinds := []string{"settings", "ping", "window", "priority", "rst", "goaway", "table0", "table64", "settings-misc", "tableup8k", "tableup64k", "goaway0"}
 					k := kinds[r.Intn(len(kinds))]
 					sid := 0
 					if k == "window" && r.Bool() || k == "priority" {
@@ -352,6 +354,24 @@ func genHttp2Conv(r *Rand, tier string, emit func(sx.Sx)) {
 			return out
 		}
 		emit(sx.L(sx.L(append([]sx.Sx{sx.A("c")}, merge(cstreams)...)...), sx.L(append([]sx.Sx{sx.A("s")}, merge(sstreams)...)...)))
+	}
+	// many streams open at once (long polls, watches, streaming calls): every request's HEADERS first, then a GOAWAY(0)
+	// of the client in the middle, then every closing DATA frame; the server likewise
+	for _, n := range []int{101, 260} {
+		cf := []sx.Sx{sx.A("c")}
+		sf := []sx.Sx{sx.A("s")}
+		for i := 0; i < n; i++ {
+			sid := 2*i + 1
+			cf = append(cf, sx.L(sx.A("h"), sx.N(sid), sx.A("false"), sx.L(kv(":method", "POST"), kv(":scheme", "http"), kv(":path", fmt.Sprintf("/watch/%d", i)), kv(":authority", "svc.example")), sx.N(0)))
+			sf = append(sf, sx.L(sx.A("h"), sx.N(sid), sx.A("false"), sx.L(kv(":status", "200"), kv("x-n", fmt.Sprintf("%d", i))), sx.N(0)))
+		}
+		cf = append(cf, sx.L(sx.A("o"), sx.A("goaway0"), sx.N(0)))
+		for i := 0; i < n; i++ {
+			sid := 2*i + 1
+			cf = append(cf, sx.L(sx.A("d"), sx.N(sid), sx.A("true"), sx.B([]byte(fmt.Sprintf("q%d", i)))))
+			sf = append(sf, sx.L(sx.A("d"), sx.N(sid), sx.A("true"), sx.B([]byte(fmt.Sprintf("event-%d", i)))))
+		}
+		emit(sx.L(sx.L(cf...), sx.L(sf...)))
 	}
 }
 
@@ -419,7 +439,7 @@ func genHttp2Raw(r *Rand, tier string, emit func(sx.Sx)) {
 				case 4:
 					fs = append(fs, sx.L(sx.A("h"), sx.N(sid), sx.Bool(end), sx.L(kv("x-trailer", "t"), kv("grpc-status", "0")), sx.N(0)))
 				case 5:
-					fs = append(fs, sx.L(sx.A("o"), sx.A([]string{"settings", "ping", "window", "priority", "rst", "goaway", "table0", "table64", "settings-misc", "tableup8k", "tableup64k"}[r.Intn(11)]), sx.N(sid)))
+					fs = append(fs, sx.L(sx.A("o"), sx.A([]string{"settings", "ping", "window", "priority", "rst", "goaway", "table0", "table64", "settings-misc", "tableup8k", "tableup64k", "goaway0"}[r.Intn(12)]), sx.N(sid)))
 				}
 			}
 			return fs
